@@ -7,7 +7,11 @@ package c19
 //     methods panic: the child must survive ("does not terminate the process"), n functions
 //     must be inside at once afterwards ("does not leak its slot") — a dead child is the
 //     failure `process-died` with its stderr as replay;
-//   * NewLimiter(limit < 1) in children started with GOMAXPROCS=1, 2 and unset: capacity 3.
+//   * NewLimiter(limit < 1) in children started with GOMAXPROCS=1, 2 and unset: capacity 3;
+//   * the ways a function can end that depend on how the process was started: children
+//     started with GODEBUG unset and with GODEBUG=panicnil=1 run panic(nil), runtime.Goexit,
+//     a panic aborted by Goexit, re-panics in deferred functions through every slot; afterwards
+//     n functions must be inside at once and Wait() must return.
 
 import (
 	"bytes"
@@ -154,5 +158,73 @@ func childExtra(ctx *core.Ctx) (int, string, []core.ExtraFailure) {
 			}
 		}
 	}
-	return evals, fmt.Sprintf("child process: %d rounds without handler / with LogPanic (7 panic values incl. 5 whose Error()/String() panic) survived with all slots back; NewLimiter(<1) = 3 in processes started with GOMAXPROCS unset/1/2", len(rounds)), fails
+	// ---- endings that depend on the GODEBUG the process was started with
+	nEndings := 0
+	for _, env := range [][]string{{"GODEBUG="}, {"GODEBUG=panicnil=1"}} {
+		so, se, exit, err := runChild(bin, env, "-mode", "endings")
+		ls := childLines(so, "CHILD endings ")
+		evals += len(ls)
+		nEndings += len(ls)
+		rerun := strings.Join(env, " ") + " " + bin + " -mode endings"
+		var firstBad *core.ExtraFailure
+		for _, l := range ls {
+			f := map[string]string{}
+			for _, kv := range strings.Fields(strings.TrimPrefix(l, "CHILD endings ")) {
+				if k, v, ok := strings.Cut(kv, "="); ok {
+					f[k] = v
+				}
+			}
+			var old, limit, capn, inside, handled int
+			fmt.Sscan(f["panicnil"], &old)
+			fmt.Sscan(f["limit"], &limit)
+			fmt.Sscan(f["cap"], &capn)
+			fmt.Sscan(f["inside"], &inside)
+			fmt.Sscan(f["handled"], &handled)
+			wantOld := 0
+			if len(env) > 0 && strings.Contains(env[0], "panicnil=1") {
+				wantOld = 1
+			}
+			// handler calls: once per function whose panic value recover() reports
+			wantHandled := -1
+			switch f["ending"] {
+			case "panic(nil)", "repanic-nil-in-defer":
+				wantHandled = capn * (1 - old)
+			case "Goexit", "panic-then-Goexit-in-defer", "recovered-by-itself":
+				wantHandled = 0
+			case "repanic-in-defer", "panic-in-defer-while-panicking":
+				wantHandled = capn
+			}
+			switch {
+			case old != wantOld:
+				firstBad = &core.ExtraFailure{
+					Failure: core.Failure{Key: "child-env", Desc: fmt.Sprintf("child started with %v reports panicnil=%d: the harness could not set the nil-panic semantics of the child process", env, old)},
+					Payload: map[string]any{"env": env, "line": l, "rerun": rerun}, NoInput: true}
+			case inside != capn:
+				key := "leak"
+				firstBad = &core.ExtraFailure{
+					Failure: core.Failure{Key: key, Desc: fmt.Sprintf("child process started with %v (panic(nil): recover() returns %s), Limiter(limit=%d): every slot was used once by a function ending with %s; afterwards only %d of %d functions could be inside at once (slot leaked)", env, map[int]string{0: "*runtime.PanicNilError", 1: "nil"}[old], limit, f["ending"], inside, capn)},
+					Payload: map[string]any{"env": env, "line": l, "stderr": clip(se, 3000), "rerun": rerun}}
+			case wantHandled >= 0 && handled != wantHandled:
+				firstBad = &core.ExtraFailure{
+					Failure: core.Failure{Key: "handler", Desc: fmt.Sprintf("child process started with %v, Limiter(limit=%d): %d functions ended with %s; the handler was called %d times, expected %d (once per panic whose value recover() reports)", env, limit, capn, f["ending"], handled, wantHandled)},
+					Payload: map[string]any{"env": env, "line": l, "rerun": rerun}}
+			}
+			if firstBad != nil {
+				break
+			}
+		}
+		switch {
+		case firstBad != nil:
+			fails = append(fails, *firstBad)
+		case len(childLines(so, "CHILD stuck ")) > 0:
+			fails = append(fails, core.ExtraFailure{
+				Failure: core.Failure{Key: "leak", Desc: fmt.Sprintf("child process started with %v: %s never returned — slot or WaitGroup count leaked", env, strings.Join(childLines(so, "CHILD stuck "), "; "))},
+				Payload: map[string]any{"env": env, "stdout_child_lines": childLines(so, "CHILD "), "stderr": clip(se, 6000), "rerun": rerun}})
+		case err != nil || exit != 0 || len(childLines(so, "CHILD done endings")) == 0:
+			fails = append(fails, core.ExtraFailure{
+				Failure: core.Failure{Key: "process-died", Desc: fmt.Sprintf("the child process (task endings, env %v) died: exit code %d (%v); completed: %v", env, exit, err, ls)},
+				Payload: map[string]any{"exit_code": exit, "stderr": clip(se, 6000), "env": env, "rerun": rerun}})
+		}
+	}
+	return evals, fmt.Sprintf("child process: %d endings rounds (panic(nil) / Goexit / panic aborted by Goexit / re-panics in deferred functions, in children started with GODEBUG unset and GODEBUG=panicnil=1) with all slots back; %d rounds without handler / with LogPanic (7 panic values incl. 5 whose Error()/String() panic) survived with all slots back; NewLimiter(<1) = 3 in processes started with GOMAXPROCS unset/1/2", nEndings, len(rounds)), fails
 }
